@@ -311,6 +311,9 @@ theorem apply_good {s s' : St} {o : Op} (e : apply s o = .ok s') : Good s s' := 
   | fraud au ra hh rev p rw => exact fraud_good e
   | obsolete au vs => exact (markObsolete_fs e).good
   | punish au a rw => exact (punish_fs (punishProposal_ok e).2).good
+  | transferOwner sg ra' no =>
+    obtain ⟨r, hg, _, _, _, rfl⟩ := transferOwner_ok e
+    exact (FS.setRa (r' := { r with owner := no }) hg rfl).good
   | begin_ dt => simp only [apply] at e; injection e with e; subst e; exact beginBlock_good s dt
   | end_ f => simp only [apply] at e; injection e with e; subst e; exact endBlock_good s f
 
@@ -374,6 +377,9 @@ theorem apply_back {s s' : St} {o : Op} (e : apply s o = .ok s') (hne : ∀ f, o
   | fraud au ra hh rev p rw => exact fraud_back e hc hi
   | obsolete au vs => exact (markObsolete_fs e).back hc hi
   | punish au a rw => exact (punish_fs (punishProposal_ok e).2).back hc hi
+  | transferOwner sg ra' no =>
+    obtain ⟨r, hg, _, _, _, rfl⟩ := transferOwner_ok e
+    exact (FS.setRa (r' := { r with owner := no }) hg rfl).back hc hi
   | begin_ dt =>
     simp only [apply] at e; injection e with e; subst e
     exact (Back.of_ras_eq (s' := { s with h := s.h + 1, t := s.t + dt }) rfl).trans
